@@ -33,8 +33,9 @@ type lgType struct {
 }
 
 type lgCtx struct {
-	fset  *token.FileSet
-	types map[string]*lgType
+	fset    *token.FileSet
+	types   map[string]*lgType
+	apiKeys map[string]int // root package `const ( produce apiKey = 0 … )`
 }
 
 type untranslatable struct{ why string }
@@ -582,13 +583,30 @@ func extractLegacy(repo, root string) error {
 	if !ok {
 		return fmt.Errorf("package kafka not found in %s", repo)
 	}
-	c := &lgCtx{fset: fset, types: map[string]*lgType{}}
+	c := &lgCtx{fset: fset, types: map[string]*lgType{}, apiKeys: map[string]int{}}
 	decls := map[string]*lgType{}
 	var emitted []string
+	var writers []*ast.FuncDecl
 	for _, f := range pkg.Files {
 		for _, d := range f.Decls {
 			switch x := d.(type) {
 			case *ast.GenDecl:
+				if x.Tok == token.CONST {
+					for _, sp := range x.Specs {
+						vs := sp.(*ast.ValueSpec)
+						if id, ok := vs.Type.(*ast.Ident); ok && id.Name == "apiKey" {
+							for i, n := range vs.Names {
+								if i < len(vs.Values) {
+									if lit, ok := vs.Values[i].(*ast.BasicLit); ok {
+										var k int
+										fmt.Sscan(lit.Value, &k)
+										c.apiKeys[n.Name] = k
+									}
+								}
+							}
+						}
+					}
+				}
 				if x.Tok != token.TYPE {
 					continue
 				}
@@ -613,6 +631,10 @@ func extractLegacy(repo, root string) error {
 			case *ast.FuncDecl:
 				_, rt := recvOf(x)
 				if rt == "" || x.Body == nil {
+					continue
+				}
+				if rt == "writeBuffer" && strings.HasPrefix(x.Name.Name, "write") && strings.Contains(x.Name.Name, "RequestV") {
+					writers = append(writers, x)
 					continue
 				}
 				t, ok := decls[rt]
@@ -772,6 +794,22 @@ func extractLegacy(repo, root string) error {
 		translated[n] = true
 		sb.WriteString(src + "\n")
 	}
+	sort.Slice(writers, func(i, j int) bool { return writers[i].Name.Name < writers[j].Name.Name })
+	var wl []string
+	for _, fd := range writers {
+		if !translated["requestHeader"] {
+			failed = append(failed, fmt.Sprintf("(%q, %q)", fd.Name.Name, "requestHeader untranslated"))
+			continue
+		}
+		src, err := c.translateWriter(fd)
+		if err != nil {
+			failed = append(failed, fmt.Sprintf("(%q, %q)", fd.Name.Name, err.Error()))
+			continue
+		}
+		wl = append(wl, fmt.Sprintf("%q", fd.Name.Name))
+		sb.WriteString(src + "\n")
+	}
+	fmt.Fprintf(&sb, "/-- write.go request writers translated (each has `legacy_size` and `legacy_header_version`) -/\ndef writers : List String := [%s]\n", strings.Join(wl, ", "))
 	var tl []string
 	for _, n := range order {
 		if translated[n] {
@@ -798,4 +836,246 @@ func uniq(s []string) []string {
 		}
 	}
 	return out
+}
+
+// ---------------------------------------------------------------------------------------------------------
+// write.go `write*RequestV<N>` functions: header literal + hand-computed h.Size + body writes
+
+var writerAPIs = map[string]int{"Produce": 0, "Fetch": 1, "ListOffset": 2, "ListOffsets": 2, "Metadata": 3}
+
+type wEnv struct {
+	c      *lgCtx
+	params map[string]string // Go parameter name -> Lean type
+}
+
+func (e *wEnv) val(x ast.Expr) string {
+	switch v := x.(type) {
+	case *ast.ParenExpr:
+		return "(" + e.val(v.X) + ")"
+	case *ast.BasicLit:
+		if v.Kind == token.INT {
+			return "(" + v.Value + " : Int)"
+		}
+	case *ast.UnaryExpr:
+		if v.Op == token.SUB {
+			return "(-" + e.val(v.X) + ")"
+		}
+	case *ast.Ident:
+		if _, ok := e.params[v.Name]; ok {
+			return "a." + v.Name
+		}
+	case *ast.CallExpr:
+		if id, ok := v.Fun.(*ast.Ident); ok && len(v.Args) == 1 {
+			switch id.Name {
+			case "int8", "int16", "int32", "int64", "int":
+				return e.val(v.Args[0])
+			case "milliseconds":
+				return "(milliseconds " + e.val(v.Args[0]) + ")"
+			case "sizeofString", "sizeofNullableString", "sizeofBytes", "sizeofInt32Array", "sizeofStringArray":
+				return "(" + id.Name + " " + e.val(v.Args[0]) + ")"
+			}
+		}
+	case *ast.SelectorExpr: // recordBatch.size
+		if id, ok := v.X.(*ast.Ident); ok && e.params[id.Name] == "RecordBatchBlob" && v.Sel.Name == "size" {
+			return "a." + id.Name + ".size"
+		}
+	case *ast.BinaryExpr:
+		if v.Op == token.ADD || v.Op == token.SUB || v.Op == token.MUL {
+			return "(" + e.val(v.X) + " " + v.Op.String() + " " + e.val(v.Y) + ")"
+		}
+	}
+	bad("writer expression %s", e.c.src(x))
+	return ""
+}
+
+// translateWriter returns the Lean text for one write*RequestV<N> function.
+func (c *lgCtx) translateWriter(fd *ast.FuncDecl) (out string, err error) {
+	defer func() {
+		if r := recover(); r != nil {
+			if u, ok := r.(untranslatable); ok {
+				err = u
+				return
+			}
+			panic(r)
+		}
+	}()
+	name := fd.Name.Name
+	// expected api key and version from the function's NAME
+	i := len(name)
+	for i > 0 && name[i-1] >= '0' && name[i-1] <= '9' {
+		i--
+	}
+	if i == len(name) || i < 1 || name[i-1] != 'V' {
+		bad("function name %s does not end in V<N>", name)
+	}
+	wantVer := name[i:]
+	api := strings.TrimSuffix(strings.TrimPrefix(name[:i-1], "write"), "Request")
+	wantKey, ok := writerAPIs[api]
+	if !ok {
+		bad("unknown API %q in function name %s", api, name)
+	}
+	e := &wEnv{c: c, params: map[string]string{}}
+	var order []string
+	for _, p := range fd.Type.Params.List {
+		lt := ""
+		switch t := p.Type.(type) {
+		case *ast.Ident:
+			switch t.Name {
+			case "int8", "int16", "int32", "int64", "int":
+				lt = "Int"
+			case "string":
+				lt = "Bytes"
+			}
+		case *ast.SelectorExpr:
+			if c.src(t) == "time.Duration" {
+				lt = "Int"
+			}
+		case *ast.StarExpr:
+			switch c.src(t.X) {
+			case "string":
+				lt = "(Option Bytes)"
+			case "recordBatch":
+				lt = "RecordBatchBlob"
+			}
+		}
+		if lt == "" {
+			bad("parameter type %s", c.src(p.Type))
+		}
+		for _, n := range p.Names {
+			e.params[n.Name] = lt
+			order = append(order, n.Name)
+		}
+	}
+	hdr := map[string]string{}
+	size := ""
+	var writes []string
+	for _, st := range fd.Body.List {
+		switch s := st.(type) {
+		case *ast.AssignStmt:
+			if len(s.Lhs) != 1 || len(s.Rhs) != 1 {
+				bad("statement %s", c.src(st))
+			}
+			if id, ok := s.Lhs[0].(*ast.Ident); ok && id.Name == "h" && s.Tok == token.DEFINE {
+				cl, ok := s.Rhs[0].(*ast.CompositeLit)
+				if !ok || c.src(cl.Type) != "requestHeader" {
+					bad("header literal %s", c.src(st))
+				}
+				for _, el := range cl.Elts {
+					kv, ok := el.(*ast.KeyValueExpr)
+					if !ok {
+						bad("header literal %s", c.src(st))
+					}
+					k := c.src(kv.Key)
+					switch k {
+					case "ApiKey", "ApiVersion":
+						// int16(<const>)
+						ce, ok := kv.Value.(*ast.CallExpr)
+						if !ok || len(ce.Args) != 1 {
+							bad("header field %s", c.src(kv))
+						}
+						cn := c.src(ce.Args[0])
+						if k == "ApiVersion" {
+							if !strings.HasPrefix(cn, "v") {
+								bad("header version %s", cn)
+							}
+							hdr[k] = "(" + cn[1:] + " : Int)"
+						} else {
+							kv2, ok := c.apiKeys[cn]
+							if !ok {
+								bad("api key constant %s", cn)
+							}
+							hdr[k] = fmt.Sprintf("(%d : Int)", kv2)
+						}
+					case "CorrelationID", "ClientID":
+						hdr[k] = e.val(kv.Value)
+					default:
+						bad("header field %s", k)
+					}
+				}
+				continue
+			}
+			if c.src(s.Lhs[0]) == "h.Size" && s.Tok == token.ASSIGN {
+				// (h.size() - 4) + …
+				txt := e.sizeSum(s.Rhs[0])
+				size = txt
+				continue
+			}
+			bad("statement %s", c.src(st))
+		case *ast.ExprStmt:
+			call, ok := s.X.(*ast.CallExpr)
+			if !ok {
+				bad("statement %s", c.src(st))
+			}
+			sel, ok := call.Fun.(*ast.SelectorExpr)
+			if !ok {
+				bad("statement %s", c.src(st))
+			}
+			recv := c.src(sel.X)
+			switch {
+			case recv == "h" && sel.Sel.Name == "writeTo":
+				writes = append(writes, "(requestHeader.writeTo { "+name+".hdr0 a with Size := "+name+".announced a })")
+			case recv == "wb":
+				switch sel.Sel.Name {
+				case "writeInt8", "writeInt16", "writeInt32", "writeInt64", "writeString", "writeNullableString", "writeBytes", "writeArrayLen":
+					if len(call.Args) != 1 {
+						bad("statement %s", c.src(st))
+					}
+					writes = append(writes, "("+sel.Sel.Name+" "+e.val(call.Args[0])+")")
+				default:
+					bad("statement %s", c.src(st))
+				}
+			case e.params[recv] == "RecordBatchBlob" && sel.Sel.Name == "writeTo":
+				writes = append(writes, "(writeInt32 a."+recv+".size ++ a."+recv+".body)")
+			default:
+				bad("statement %s", c.src(st))
+			}
+		case *ast.ReturnStmt:
+			if len(s.Results) == 1 && c.src(s.Results[0]) == "wb.Flush()" {
+				continue
+			}
+			bad("statement %s", c.src(st))
+		default:
+			bad("statement %s", c.src(st))
+		}
+	}
+	for _, k := range []string{"ApiKey", "ApiVersion", "CorrelationID", "ClientID"} {
+		if hdr[k] == "" {
+			bad("header field %s missing", k)
+		}
+	}
+	if size == "" || len(writes) == 0 {
+		bad("no h.Size assignment / no writes")
+	}
+	var sb strings.Builder
+	fmt.Fprintf(&sb, "structure %s.Args where\n", name)
+	for _, n := range order {
+		fmt.Fprintf(&sb, "  %s : %s\n", n, e.params[n])
+	}
+	fmt.Fprintf(&sb, "/-- the `requestHeader{…}` literal of %s (Size is assigned afterwards) -/\n", name)
+	fmt.Fprintf(&sb, "def %s.hdr0 (a : %s.Args) : requestHeader :=\n  { Size := 0, ApiKey := %s, ApiVersion := %s, CorrelationID := %s, ClientID := %s }\n",
+		name, name, hdr["ApiKey"], hdr["ApiVersion"], hdr["CorrelationID"], hdr["ClientID"])
+	fmt.Fprintf(&sb, "/-- `h.Size = …` -/\ndef %s.announced (a : %s.Args) : Int :=\n  %s\n", name, name, strings.ReplaceAll(size, "HSIZE", "(requestHeader.size ("+name+".hdr0 a))"))
+	fmt.Fprintf(&sb, "def %s.bytes (a : %s.Args) : Bytes :=\n  %s\n", name, name, strings.Join(writes, " ++\n  "))
+	fmt.Fprintf(&sb, "/-- the size prefix announces exactly the bytes that follow it -/\ntheorem %s.legacy_size (a : %s.Args) : ((%s.bytes a).length : Int) = 4 + %s.announced a := by\n  simp [%s.bytes, %s.announced, %s.hdr0, requestHeader.size, milliseconds]\n  try omega\n",
+		name, name, name, name, name, name, name)
+	fmt.Fprintf(&sb, "/-- the header carries the api key and the version the function is named after -/\ntheorem %s.legacy_header_version (a : %s.Args) : (%s.hdr0 a).ApiVersion = %s ∧ (%s.hdr0 a).ApiKey = %d := by\n  simp [%s.hdr0]\n",
+		name, name, name, wantVer, name, wantKey, name)
+	return sb.String(), nil
+}
+
+func (e *wEnv) sizeSum(x ast.Expr) string {
+	// h.size() appears as a call on h
+	switch v := x.(type) {
+	case *ast.BinaryExpr:
+		if v.Op == token.ADD || v.Op == token.SUB {
+			return "(" + e.sizeSum(v.X) + " " + v.Op.String() + " " + e.sizeSum(v.Y) + ")"
+		}
+	case *ast.ParenExpr:
+		return "(" + e.sizeSum(v.X) + ")"
+	case *ast.CallExpr:
+		if e.c.src(v) == "h.size()" {
+			return "HSIZE"
+		}
+	}
+	return e.val(x)
 }
